@@ -66,6 +66,7 @@ class Pinned:
     def __enter__(self) -> "Pinned":
         global _current
         install()
+        set_host_tz(None)
         self._prev = _current
         _current = self  # type: ignore[assignment]
         return self
@@ -196,10 +197,11 @@ class VDateTime(_dt.datetime):
     @classmethod
     def now(cls, tz: Any = None) -> "VDateTime":  # type: ignore[override]
         d = EPOCH + _dt.timedelta(microseconds=vnow_us())
-        r = cls(d.year, d.month, d.day, d.hour, d.minute, d.second, d.microsecond)
         if tz is not None:
-            r = r.replace(tzinfo=_dt.timezone.utc).astimezone(tz)  # type: ignore[assignment]
-        return r
+            r = cls(d.year, d.month, d.day, d.hour, d.minute, d.second, d.microsecond)
+            return r.replace(tzinfo=_dt.timezone.utc).astimezone(tz)  # type: ignore[return-value]
+        d = d + _dt.timedelta(seconds=_HOST_OFFSET_S)  # naive = local time of the simulated host zone
+        return cls(d.year, d.month, d.day, d.hour, d.minute, d.second, d.microsecond)
 
     @classmethod
     def utcnow(cls) -> "VDateTime":  # type: ignore[override]
@@ -214,15 +216,41 @@ def to_v(d: _dt.datetime) -> VDateTime:
     return VDateTime(d.year, d.month, d.day, d.hour, d.minute, d.second, d.microsecond, d.tzinfo)
 
 
+# Host time zone of the simulated machine (fixed offset, seconds east of UTC).  repid works with naive *local* datetimes and
+# converts them with .timestamp(); under a non-UTC zone the two views must still agree.  Set through run(tz=...).
+_HOST_OFFSET_S = 0
+
+
+def _parse_posix_tz(tz: str) -> int:
+    """'EST5' -> -18000, 'IST-5:30' -> +19800 (POSIX sign: positive = west of UTC)."""
+    import re
+
+    m = re.fullmatch(r"[A-Za-z]{3,}([+-]?)(\d{1,2})(?::(\d{2}))?", tz)
+    assert m, tz
+    west = (int(m.group(2)) * 3600 + int(m.group(3) or 0) * 60) * (-1 if m.group(1) == "-" else 1)
+    return -west
+
+
+def set_host_tz(tz: str | None) -> None:
+    global _HOST_OFFSET_S
+    import os
+
+    want = tz or "UTC"
+    if os.environ.get("TZ") != want or _HOST_OFFSET_S != (_parse_posix_tz(tz) if tz else 0):
+        os.environ["TZ"] = want
+        _time.tzset()
+    _HOST_OFFSET_S = _parse_posix_tz(tz) if tz else 0
+
+
 def at(seconds: float) -> VDateTime:
-    """Naive virtual datetime `seconds` after EPOCH (rounded to the microsecond)."""
-    d = EPOCH + _dt.timedelta(microseconds=round(seconds * 1e6))
+    """Naive (host-local) virtual datetime `seconds` after EPOCH (rounded to the microsecond)."""
+    d = EPOCH + _dt.timedelta(microseconds=round(seconds * 1e6)) + _dt.timedelta(seconds=_HOST_OFFSET_S)
     return to_v(d)
 
 
 def secs(d: _dt.datetime) -> float:
-    """Inverse of at(): seconds since EPOCH for a naive datetime."""
-    return (d.replace(tzinfo=None) - EPOCH).total_seconds() if d.tzinfo is None else (
+    """Inverse of at(): seconds since EPOCH for a naive (host-local) datetime."""
+    return (d.replace(tzinfo=None) - EPOCH).total_seconds() - _HOST_OFFSET_S if d.tzinfo is None else (
         d.astimezone(_dt.timezone.utc).replace(tzinfo=None) - EPOCH
     ).total_seconds()
 
@@ -298,10 +326,14 @@ def install() -> int:
 
 
 def run(coro_fn: Callable[..., Any], *args: Any, max_steps: int = 2_000_000, max_vtime: float = 1e7,
-        start: float = 0.0, jitter_seed: int | None = None, thread_time: bool = False) -> Any:
-    """Run `await coro_fn(loop, *args)` on a fresh VLoop; always tears the loop down."""
+        start: float = 0.0, jitter_seed: int | None = None, thread_time: bool = False, tz: str | None = None) -> Any:
+    """Run `await coro_fn(loop, *args)` on a fresh VLoop; always tears the loop down.
+    tz: POSIX zone string (fixed offset, e.g. 'EST5', 'IST-5:30') of the simulated host; default UTC."""
     global _current
     install()
+    # (the zone stays in force after the run: the check's oracle converts the datetimes it collected with at()/secs();
+    #  the next run - or a Pinned clock - sets its own)
+    set_host_tz(tz)
     loop = VLoop(max_steps=max_steps, max_vtime=max_vtime, jitter_seed=jitter_seed)
     loop._vtime = start
     loop.thread_time = thread_time
